@@ -342,6 +342,9 @@ pub struct HybridCfg {
     pub more_tampers: Vec<Tamper>,
     /// stop as soon as a helper in this set (bitmask over helper indices) fails; 0b111 = any
     pub stop_on_error_of: u8,
+    /// once a helper outside that set (the corrupt one) has failed, the others get this much more
+    /// time: whoever still needs a message from it will never finish
+    pub grace_after_other_failure: Option<Duration>,
 }
 
 impl HybridCfg {
@@ -519,12 +522,17 @@ where
             (h, s, o)
         })
         .collect();
-    let deadline = tokio::time::Instant::now() + cfg.timeout;
+    let mut deadline = tokio::time::Instant::now() + cfg.timeout;
     let mut timed_out = false;
     loop {
         match tokio::time::timeout_at(deadline, pending.next()).await {
             Ok(Some((h, s, o))) => {
                 let stop = !o.is_ok() && (cfg.stop_on_error_of >> h) & 1 == 1;
+                if !o.is_ok() && !stop {
+                    if let Some(g) = cfg.grace_after_other_failure {
+                        deadline = deadline.min(tokio::time::Instant::now() + g);
+                    }
+                }
                 outcomes[h][s] = Some(o);
                 if stop {
                     break;
